@@ -133,9 +133,10 @@ def ground_axioms(formulas, depth=1):
         ax.append(z3.Implies(t >= 1, pow2(t) >= 2))
         ax.append(z3.Implies(t >= 0, pow2(t) > t))
         ax.append(z3.Implies(t < 0, pow2(t) == 1))       # totalisation; never relied on (k>=0 asserted)
-    if len(ts) <= 14:
-        for i, a in enumerate(ts):
-            for b in ts[i + 1:]:
+    mono = ts if len(ts) <= 14 else (orig if len(orig) <= 40 else [])
+    if mono:
+        for i, a in enumerate(mono):
+            for b in mono[i + 1:]:
                 ax.append(z3.Implies(z3.And(a >= 0, a <= b), pow2(a) <= pow2(b)))
                 ax.append(z3.Implies(z3.And(b >= 0, b <= a), pow2(b) <= pow2(a)))
                 ax.append(z3.Implies(z3.And(a >= 0, a < b), 2 * pow2(a) <= pow2(b)))
@@ -159,6 +160,11 @@ def ground_axioms(formulas, depth=1):
         for (x, k) in divs:
             ax.append(z3.Implies(z3.And(x >= 0, k >= 0), x / pow2(k) >= 0))
             ax.append(z3.Implies(z3.And(x >= 0, k >= 0), x == pow2(k) * (x / pow2(k)) + x % pow2(k)))
+            # the top bit: x < pow2(k + 1)  ->  x / pow2(k) is 1 iff x >= pow2(k)
+            a1 = byid2.get(z3.simplify(k + 1, sort_sums=True).sexpr())
+            if a1 is not None:
+                ax.append(z3.Implies(z3.And(x >= 0, x < pow2(a1), k >= 0),
+                                     x / pow2(k) == z3.If(x >= pow2(k), z3.IntVal(1), z3.IntVal(0))))
             for c in orig:
                 a = byid2.get(z3.simplify(c + k, sort_sums=True).sexpr())
                 if a is not None:
@@ -167,6 +173,9 @@ def ground_axioms(formulas, depth=1):
     for (x, t) in _mods(formulas):
         ax.append(z3.And(x % pow2(t) >= 0, x % pow2(t) < pow2(t)))
         ax.append(z3.Implies(z3.And(x >= 0, x < pow2(t)), x % pow2(t) == x))
+        # one wrap in either direction (sums / differences of two in-range values)
+        ax.append(z3.Implies(z3.And(x >= pow2(t), x < 2 * pow2(t)), x % pow2(t) == x - pow2(t)))
+        ax.append(z3.Implies(z3.And(x < 0, x >= -pow2(t)), x % pow2(t) == x + pow2(t)))
     # x * y with 0 <= x < pow2(u), 0 <= y < pow2(v):  x*y <= (pow2(u)-1)*(pow2(v)-1)
     gm = _mults(formulas, generic=True)
     if len(gm) * len(orig) * len(orig) <= 900:
